@@ -62,13 +62,13 @@ type Doc struct {
 }
 
 var words = []string{"", "a", "ab", "abc", "foo", "bar", "baz", "foobar", "web-1", "web-2", "db", "10.0.0.1", "x y", "Ünï", "true", "42", "red", "blue"}
-var keyWords = []string{"a", "b", "c", "foo", "bar", "x", "name", "tags", "meta", "n", "k1", "k2", "k3", "co:lon", "with space", "ünï", "0", "Name", "NAME", "Foo", "FOO", "Env", "ENV", "env"}
+var keyWords = []string{"a", "b", "c", "foo", "bar", "x", "name", "tags", "meta", "n", "k1", "k2", "k3", "co:lon", "with space", "ünï", "0", "Name", "NAME", "Foo", "FOO", "Env", "ENV", "env", "9", "10", "1a", "2", "4a"}
 
 // DatumGens lists the constructors for Evaluate data.
 var DatumGens = []string{"doc", "docptr", "json", "jsonnum", "tmap:int", "tmap:slice", "tmap:map", "tmap:ptr", "tmap:any", "tmap:inner", "tmap:ikey", "tmap:nkey", "longlist"}
 
 // CollGens lists the constructors for Filter.Execute containers.
-var CollGens = []string{"coll:slice", "coll:ptrslice", "coll:array", "coll:map", "coll:intmap", "coll:named", "coll:namedmap", "coll:jsonlist", "coll:anys", "coll:nilslice", "coll:empty", "coll:anymap", "coll:ptrmap", "coll:scalar"}
+var CollGens = []string{"coll:slice", "coll:ptrslice", "coll:array", "coll:arrayptr", "coll:arrayany", "coll:arraymap", "coll:map", "coll:intmap", "coll:named", "coll:namedmap", "coll:jsonlist", "coll:anys", "coll:nilslice", "coll:empty", "coll:anymap", "coll:ptrmap", "coll:scalar"}
 
 func Build(d DatumSpec) interface{} {
 	r := plan.New(plan.Mix(d.Seed, 0xda7a))
@@ -464,6 +464,25 @@ func genColl(r *plan.Rand, kind string) interface{} {
 			a[i] = genInner(r, 1)
 		}
 		return a
+	case "arrayptr":
+		var a [3]*Inner
+		for i := range a {
+			in := genInner(r, 1)
+			a[i] = &in
+		}
+		return a
+	case "arrayany":
+		var a [3]interface{}
+		for i := range a {
+			a[i] = genInner(r, 1)
+		}
+		return a
+	case "arraymap":
+		var a [2]map[string]interface{}
+		for i := range a {
+			a[i] = map[string]interface{}{"X": r.Range(0, 3), "y": r.Pick(words), "B": r.Chance(0.5)}
+		}
+		return a
 	case "map":
 		m := map[string]Inner{}
 		for i := 0; i < n+1; i++ {
@@ -532,15 +551,25 @@ func genColl(r *plan.Rand, kind string) interface{} {
 func genMixed(spec string) interface{} {
 	i := strings.IndexByte(spec, ':')
 	fam, classes := spec[:i], spec[i+1:]
-	alt := false
+	alt, num := false, false
 	if strings.HasSuffix(classes, ":alt") {
 		// same shape, but the last key has another name
 		alt = true
 		classes = strings.TrimSuffix(classes, ":alt")
 	}
+	if strings.HasSuffix(classes, ":num") {
+		// keys that look like numbers mixed with keys that merely start with a
+		// digit: any "natural" ordering of them is in danger of being cyclic
+		num = true
+		classes = strings.TrimSuffix(classes, ":num")
+	}
+	numKeys := []string{"9", "10", "1a", "2", "80", "4a", "443", "10x"}
 	m := map[string]interface{}{}
 	for j, c := range classes {
 		k := fmt.Sprintf("k%d", j)
+		if num {
+			k = numKeys[j%len(numKeys)]
+		}
 		if alt && j == len(classes)-1 {
 			k = "z9"
 		}
